@@ -74,12 +74,16 @@ fn dec_body(c: &DecCase, ch: &Chooser) -> Outcome {
     } else {
         Streaming::new_request(dec, sb, enc, c.limit)
     };
-    let mut cx = Context::from_waker(Waker::noop());
+    let (waker, wakes) = crate::env::counting_waker();
+    let mut cx = Context::from_waker(&waker);
     let mut got: Vec<usize> = vec![]; // lengths
     let mut err: Option<(tonic::Status, u64)> = None;
     let mut ended = false;
     for _ in 0..10_000 {
+        let before = wakes.0.load(Ordering::SeqCst);
         match Pin::new(&mut s).poll_next(&mut cx) {
+            // `Pending` without a wake-up: the stream would never be polled again (left as "not ended")
+            Poll::Pending if wakes.0.load(Ordering::SeqCst) == before => break,
             Poll::Pending => continue,
             Poll::Ready(Some(Ok(m))) => got.push(m.len()),
             Poll::Ready(Some(Err(e))) => {
@@ -483,6 +487,81 @@ fn gen_body(c: &GenCase, ch: &Chooser) -> Outcome {
     o
 }
 
+// ---------------------------------------------------------------------------------------------
+// the generated server refuses an oversized request as soon as the prefix is there, even when the
+// peer never finishes its request body
+
+#[derive(Clone, Debug)]
+struct PromptCase {
+    shape: super::l1::Shape,
+    limit: usize,
+    /// bytes of the oversized message's payload that arrive after its prefix (the peer then goes silent)
+    partial: usize,
+    /// complete small messages before the oversized one (streaming-request shapes only)
+    lead: usize,
+}
+
+fn prompt_body(c: &PromptCase, ch: &Chooser) -> Outcome {
+    use super::l1::*;
+    use tower_service::Service;
+    let script = Script { initial_md: vec![], msgs: vec![vec![1]], end: None, handler_err: false, bidi: BidiMode::ReadAll, disable_compression: false, exact_hint: false };
+    let (server, log) = new_server(script, ch, false);
+    let mut server = server.max_decoding_message_size(c.limit);
+    let mut data = vec![];
+    for _ in 0..c.lead {
+        data.extend(wire::encode_frame(0, &[7]));
+    }
+    data.push(0);
+    data.extend_from_slice(&((c.limit + 1) as u32).to_be_bytes());
+    data.extend(std::iter::repeat(0x55u8).take(c.partial.min(c.limit + 1)));
+    let body = ScriptBody::new(data, None, Chunking::Fixed(vec![]), ch).with_end(crate::env::BodyEnd::NeverEnds);
+    let req = http::Request::builder().method("POST").uri(c.shape.path()).version(http::Version::HTTP_2).header("content-type", "application/grpc").header("te", "trailers").body(body).unwrap();
+    // the response (headers, or headers + trailers) must be produced although the request body never ends
+    let resp = match crate::env::spin_block_on(server.call(req), 10_000) {
+        Ok(Ok(r)) => r,
+        _ => {
+            let mut o = Outcome::new("NO RESPONSE");
+            o.violate("oversize-refusal-waits-for-end-of-request", format!("a {}-byte message was announced to a server limited to {} bytes; the refusal was not produced while the peer kept its request stream open", c.limit + 1, c.limit));
+            return o;
+        }
+    };
+    let (parts, rbody) = resp.into_parts();
+    let col = crate::env::collect_body(rbody, 10_000);
+    let log = log.lock().unwrap().clone();
+    let status = parts.headers.get("grpc-status").or_else(|| col.trailers.iter().find_map(|t| t.get("grpc-status"))).map(|v| String::from_utf8_lossy(v.as_bytes()).to_string());
+    let mut o = Outcome::new(format!("grpc-status={status:?} stalled={} handler_msgs={:?} handler_err={:?}", col.stalled, log.req_msgs.iter().map(|m| m.len()).collect::<Vec<_>>(), log.req_err));
+    o.nontrivial = true;
+    if c.shape.streams_requests() {
+        // the handler owns the request stream: what it does with the error is its business, but it
+        // must have been given OUT_OF_RANGE without waiting for the end of the body
+        match &log.req_err {
+            Some(e) if e.contains("OutOfRange") => {}
+            other => o.violate("oversize-refusal-waits-for-end-of-request", format!("the handler's request stream did not report OUT_OF_RANGE while the peer kept its stream open: {other:?} (response status {status:?}, stalled={})", col.stalled)),
+        }
+        if log.req_msgs.len() != c.lead {
+            o.violate("collateral-loss-decode", format!("{} messages preceded the oversized one, the handler received {}", c.lead, log.req_msgs.len()));
+        }
+    } else if col.stalled || status.as_deref() != Some("11") {
+        o.violate("oversize-refusal-waits-for-end-of-request", format!("expected grpc-status 11 (OUT_OF_RANGE) at once, got {status:?} (response body stalled: {})", col.stalled));
+    }
+    o
+}
+
+fn prompt_cases() -> Vec<PromptCase> {
+    let mut out = vec![];
+    for shape in super::l1::Shape::ALL {
+        for limit in [4usize, 64] {
+            for partial in [0usize, 1, 3] {
+                let leads: &[usize] = if shape.streams_requests() { &[0, 2] } else { &[0] };
+                for lead in leads {
+                    out.push(PromptCase { shape, limit, partial, lead: *lead });
+                }
+            }
+        }
+    }
+    out
+}
+
 fn gen_cases() -> Vec<GenCase> {
     use super::l1::Shape;
     let mut out = vec![];
@@ -501,6 +580,15 @@ fn gen_cases() -> Vec<GenCase> {
 }
 
 pub fn property(tier: Tier) -> Property {
+    let prompt = Section::new(
+        "server-prompt-refusal",
+        Config::default(),
+        "cases: generated server with max_decoding_message_size L in {4, 64} x call shape x a request body that carries (for streaming-request shapes: 0 or 2 small messages and then) the prefix of a message of L+1 bytes plus 0 / 1 / 3 bytes of its payload, after which the peer keeps the stream open and silent (the body answers Pending for ever and wakes nobody); oracle: unary-request shapes: the response with grpc-status 11 (OUT_OF_RANGE) is produced all the same; streaming-request shapes: the handler's request stream yields the preceding messages and then OUT_OF_RANGE. All cases count as non-trivial.",
+        prompt_cases(),
+        |c: &PromptCase| format!("{c:?}"),
+        prompt_body,
+    )
+    .mins(20, 2, 20);
     let dec = Section::new(
         "decode-limit",
         Config { max_bound: tier.q(1, 2), ..Default::default() },
@@ -533,7 +621,7 @@ pub fn property(tier: Tier) -> Property {
         level: "model_checking",
         hang_is_violation: false,
         assumptions: vec!["limits outside the menu {0,1,5,64,4 MiB} are represented by these".into()],
-        sections: vec![dec, enc, gen],
+        sections: vec![dec, enc, gen, prompt],
         extra: Default::default(),
     }
 }
